@@ -143,11 +143,32 @@ def run_and_collect(fe, tab, cfgd):
     return flat_d, flat_l
 
 
+BAD = {"gross": ("qartod", "gross_range_test", dict(fail_span=[0, 8, 9])), "spike": ("qartod", "spike_test", dict(suspect_threshold=1, fail_threshold=5, method="bogus"))}
+
+
+def make_many(case):
+    """k contexts (distinct all-covering windows) in which the SAME function cannot run (rejected parameters), and one
+    context where that function is configured properly - before or after them"""
+    h = case["healthy"][0]
+    ok = dict(streams={"v": build_stream([HEALTHY[h]])})
+    bad = [dict(start=S.T0 - (10 + i) * S.DAY, end=None, streams={"v": build_stream([BAD[h]])}) for i in range(case["many"])]
+    ctxs = bad + [ok] if case.get("healthy_last", True) else [ok] + bad
+    return ctxs, [("v", HEALTHY[h][1])], []
+
+
 def check_case(case):
     S.install_probes()
     fe = case["fe"]
     tab = S.table(case["n"], has_z=False, has_ll=True)
-    ctxs, healthy_keys, fault_keys = make_contexts(case)
+    if case.get("many"):
+        ctxs, healthy_keys, fault_keys = make_many(case)
+    else:
+        ctxs, healthy_keys, fault_keys = make_contexts(case)
+    if case.get("wide"):
+        # a wide table: further measured columns, each with a healthy test of its own
+        tab["extra"] = {f"e{j}": [float((i * (j + 2)) % 9) for i in range(case["n"])] for j in range(case["wide"])}
+        for j in range(case["wide"]):
+            ctxs[0]["streams"][f"e{j}"] = build_stream([HEALTHY["gross"]])
     rename = (lambda s: "_stream") if fe == "qcconfig" else (lambda s: s)
     if fe == "qcconfig":
         # QcConfig.run returns the default stream only
@@ -156,6 +177,11 @@ def check_case(case):
     kinds = "+".join(sorted({f for f, _ in case["faults"]}))
     places = "+".join(sorted({p for _, p in case["faults"]}))
     sig0 = f"{PROP}|{fe}|faults={kinds}"
+    # every healthy entry alone, FIRST (the baseline is taken before anything that cannot run was attempted)
+    solos = {}
+    for h in case["healthy"]:
+        solo_ctx = [dict(streams={rename("v"): build_stream([HEALTHY[h]])})]
+        solos[h] = alpha.call(run_and_collect, fe, tab, S.make_config(solo_ctx))
     res = alpha.call(run_and_collect, fe, tab, cfgd)
     if isinstance(res, alpha.Raised):
         return [V(f"{sig0}|symptom=run-raises:{res.name}", f"{fe}: the run did not complete: {res.name}: {res.msg}", "completes", repr(res))], True, ("exc", res.name), 0, 1
@@ -170,8 +196,7 @@ def check_case(case):
     # every healthy entry alone
     for h in case["healthy"]:
         mod, test, kw = HEALTHY[h]
-        solo_ctx = [dict(streams={rename("v"): build_stream([HEALTHY[h]])})]
-        solo = alpha.call(run_and_collect, fe, tab, S.make_config(solo_ctx))
+        solo = solos[h]
         nexec += 1
         if isinstance(solo, alpha.Raised):
             continue  # the healthy entry cannot run alone on this front end: nothing to compare
@@ -202,6 +227,10 @@ def tasks(tier):
     ns = (4,) if tier == "quick" else (3, 4, 5)
     for fe in S.FRONTENDS + ("numpy:dictnotime", "xarray:twodims"):
         ts.append((fe, 30, ["gross", "spike"], 1))
+        for h in ("gross", "spike"):
+            ts.append((fe, 6, [h], "many"))
+        if fe.split(":")[0] in ("pandas", "xarray", "netcdf") or fe == "numpy:dict":
+            ts.append((fe, 6, ["gross", "probe"], "wide"))
         for n in ns:
             for hs in (["gross"], ["spike"], ["probe"], ["press"], ["gross", "spike"], ["spike", "probe"], ["probe", "gross"], ["press", "gross"]):
                 ts.append((fe, n, hs, 2 if tier == "quick" else 3))
@@ -211,6 +240,21 @@ def tasks(tier):
 def run_task(task, acc):
     fe, n, hs, maxf = task
     S.install_probes()
+    if maxf == "many":
+        def gen_many():
+            for k in (3, 9, 10, 11, 14, 25):
+                for last in (True, False):
+                    yield dict(fe=fe, n=n, healthy=hs, faults=[["rejected-params", "other-context"]], order=[], many=k, healthy_last=last)
+        run_cases(acc, gen_many(), check_case)
+        return
+    if maxf == "wide":
+        def gen_wide():
+            for wide in (12, 15, 18, 40):
+                for combo in (("absent-stream",), ("absent-stream-two-tests",), ("absent-stream", "unknown-test"), ("raises",)):
+                    for gf in (False, True):
+                        yield dict(fe=fe, n=n, healthy=hs, faults=[[f, "same-stream"] for f in combo], order=[], wide=wide, ghost_first=gf)
+        run_cases(acc, gen_wide(), check_case)
+        return
 
     def gen():
         for combo in fault_sets(maxf):
